@@ -150,7 +150,8 @@ m('C14', 'async-timeout-not-handled', AS, "        transport.pause_reading()\n  
 # ---- C15
 m('C15', 'escape-delivered', PS, "                    data = data[:i]\n", "                    data = data[:i + 1]\n", 'the escape character itself is sent to the child')
 m('C15', 'mode-not-restored', PS, "            tty.tcsetattr(self.STDIN_FILENO, tty.TCSAFLUSH, mode)", "            pass", 'terminal mode not restored')
-m('C15', 'pending-not-flushed', PS, "        self.write_to_stdout(self.buffer)\n        self.stdout.flush()", "        self.stdout.flush()", 'pending output not shown first')
+m('C15', 'pending-not-flushed', PS, "        self.write_to_stdout(self._before.getvalue())\n        self.stdout.flush()", "        self.stdout.flush()", 'pending output not shown first')
+m('C15', 'pending-flush-from-search-buffer', PS, "        self.write_to_stdout(self._before.getvalue())\n", "        self.write_to_stdout(self.buffer)\n", 'revert of the pending-text flush fix (only the trimmed search buffer is shown)')
 m('C15', 'rfind-escape', PS, "                    i = data.find(escape_character)", "                    i = data.rfind(escape_character)", 'revert of the rfind fix')
 m('C15', 'output-filter-after-write', PS, "                if output_filter:\n                    data = output_filter(data)\n                log(data, 'read')\n                os.write(self.STDOUT_FILENO, data)", "                os.write(self.STDOUT_FILENO, data)\n                if output_filter:\n                    data = output_filter(data)\n                log(data, 'read')", 'output_filter applied after writing')
 m('C15', 'input-filter-after-escape-check', PS, "                if input_filter:\n                    data = input_filter(data)\n                i = -1\n                if escape_character is not None:\n                    i = data.find(escape_character)", "                i = -1\n                if escape_character is not None:\n                    i = data.find(escape_character)\n                if input_filter:\n                    data = input_filter(data)", 'escape searched before input_filter')
@@ -215,6 +216,29 @@ m('C16', 'existing-echoing-spawn-not-silenced', RW, "            self.child.sete
 m('C15', 'last-words-not-drained', PS, "        else:\n            # The child has exited. What it wrote before it went may still\n            # be waiting in the pty: hand that on before returning.\n            while True:\n", "        else:\n            while False:\n",
   'revert of the interact() last-words fix')
 
+
+# ---- after seeded round 8: the mechanisms the volunteers found, kept as mutants of their own
+m('C06', 'async-late-data-through-stale-expecter', AS, "        if self.fut.done():\n            spawn._before.write(s)\n            spawn._buffer.write(s)\n            return\n", "",
+  'asyncio path: text arriving after an abandoned await goes through that await\'s searcher')
+m('C09', 'signalstatus-via-signals-enum', PS, "            self.signalstatus = ptyproc.signalstatus\n            self.terminated = True\n",
+  "            try:\n                self.signalstatus = signal.Signals(ptyproc.signalstatus)\n            except (ValueError, TypeError):\n                self.signalstatus = None\n            self.terminated = True\n",
+  'signalstatus looked up in signal.Signals: unnamed realtime signals become None')
+m('C10', 'kill-without-liveness-check', PS, "        if self.isalive():\n            os.kill(self.pid, sig)\n", "        try:\n            os.kill(self.pid, sig)\n        except ProcessLookupError:\n            pass\n",
+  'kill() signals the pid number without asking isalive(): also after the child has been reaped')
+m('C11', 'socket-send-logged-after-sendall', SO, "        self._log(s, \"send\")\n\n        b = self._encoder.encode(s, final=False)\n        self.socket.sendall(b)\n",
+  "        b = self._encoder.encode(s, final=False)\n        self.socket.sendall(b)\n        self._log(s, \"send\")\n", 'SocketSpawn.send logs after the transmission: a refused send is not logged')
+m('C12', 'later-patterns-searched-to-end-of-best-match', E, "            match = s.search(buffer, searchstart)\n",
+  "            match = s.search(buffer, searchstart) if first_match is None else s.search(buffer, searchstart, the_match.end())\n",
+  'regex searcher: later patterns are searched only up to the end of the best match so far')
+m('C15', 'keyboard-served-only-when-child-quiet', PS, "            if self.STDIN_FILENO in r:\n", "            elif self.STDIN_FILENO in r:\n",
+  'interact(): the keyboard is read only in rounds in which the child has nothing waiting')
+m('C16', 'async-decoder-final-per-chunk', AS, "        s = spawn._decoder.decode(data)\n", "        s = spawn._decoder.decode(data, final=True)\n",
+  'asyncio path: decoder flushed on every chunk (awaited run_command loses chunks of non-ASCII output)')
+m('C20', 'exact-falsy-means-no-patterns', SB, "        if (isinstance(pattern_list, (bytes, text_type)) or\n                pattern_list in (TIMEOUT, EOF)):\n",
+  "        if not pattern_list:\n            pattern_list = []\n        elif (isinstance(pattern_list, (bytes, text_type)) or\n                pattern_list in (TIMEOUT, EOF)):\n",
+  'expect_exact: anything false in a boolean context means "no patterns"')
+m('C20', 'exact-empty-wrong-type-waits', SB, "        if (isinstance(pattern_list, (bytes, text_type)) or\n                pattern_list in (TIMEOUT, EOF)):\n",
+  "        if (isinstance(pattern_list, self.allowed_string_types) or\n                pattern_list in (TIMEOUT, EOF)):\n", 'revert of the expect_exact(b\'\') fix')
 
 def main():
     os.makedirs(OUT, exist_ok=True)
